@@ -33,13 +33,14 @@ ASSUMPTIONS = [
 FLOORS = {
     'quick': {'lr_grown': 4000, 'pc_compared': 4000, 'gen_compared': 1500, 'kind:direct': 15, 'kind:aliased': 15,
               'kind:mutual': 15, 'kind:optprefix': 15, 'kind:named': 15, 'kind:right': 10, 'kind:both': 10,
-              'unary': 15, 'parens': 30, 'with_cut': 15, 'kind:direct_alias': 10, 'kind:override_group': 10, 'kind:optwrap': 10, 'callatom': 15},
+              'unary': 15, 'parens': 30, 'with_cut': 15, 'kind:direct_alias': 10, 'kind:aliased2': 10, 'long_chain_parsed': 16, 'kind:override_group': 10, 'kind:optwrap': 10, 'callatom': 15},
     'thorough': {'lr_grown': 100000, 'pc_compared': 100000, 'gen_compared': 30000},
 }
-PEAK_COUNTERS = ('max_growth', 'max_ref_depth')
+PEAK_COUNTERS = ('max_long_chain_depth', 'max_growth', 'max_ref_depth')
 N = {'quick': 192, 'thorough': 3200}
 
-KINDS = ['direct', 'aliased', 'mutual', 'optprefix', 'named', 'right', 'both', 'mutual2', 'direct_alias', 'override_group', 'optwrap']
+KINDS = ['direct', 'aliased', 'mutual', 'optprefix', 'named', 'right', 'both', 'mutual2', 'direct_alias', 'override_group', 'optwrap',
+         'aliased2']
 OPS = ['+', '*', '-', '/']
 
 
@@ -79,7 +80,7 @@ class Spec:
                 a.append('-')
             if l['kind'] == 'optprefix' and '-' not in a:
                 a.append('-')
-            if l['kind'] in ('mutual2', 'direct_alias') and l['op2'] not in a:
+            if l['kind'] in ('mutual2', 'direct_alias', 'aliased2') and l['op2'] not in a:
                 a.append(l['op2'])
         if self.parens or self.callatom:
             a += ['(', ')']
@@ -120,6 +121,10 @@ class Spec:
                 # the same rule is left recursive directly AND through an alias
                 rules.append(L.Rule(x, C(e)))
                 opts += [L.Seq((C(e), *op, C(nxt))), L.Seq((C(x), L.Tok(l['op2']), C(nxt))), C(nxt)]
+            elif k == 'aliased2':
+                # two operator alternatives through the alias: the non-leader rule runs twice at one position per iteration
+                rules.append(L.Rule(x, C(e)))
+                opts += [L.Seq((C(x), *op, C(nxt))), L.Seq((C(x), L.Tok(l['op2']), C(nxt))), C(nxt)]
             elif k == 'override_group':
                 opts += [L.Over(L.Group(L.Seq((C(e), *op, C(nxt))))), C(nxt)]
             elif k == 'optwrap':
@@ -214,7 +219,7 @@ class PC:
         q, v = seed
         while True:
             used = None
-            for op in ([l['op'], l['op2']] if k == 'direct_alias' else [l['op']]):
+            for op in ([l['op'], l['op2']] if k in ('direct_alias', 'aliased2') else [l['op']]):
                 try:
                     q2 = self.tok(q, op)
                     q2, r = self.layer(i if k == 'both' else i + 1, q2)
@@ -467,8 +472,112 @@ def plain(parse, g, text):
         return ('EXC', type(e).__name__, str(e)[:80])
 
 
+# ------------------------------------------------------------------ long chains
+LONG_N = {'quick': 2500, 'thorough': 7000}
+LONG_SHAPES = [
+    ('direct', "start = e $ ;\ne = e '+' t | e '-' t | t ;\nt = /\\d/ ;\n", 'list', 1),
+    ('named', "start = e $ ;\ne = l:e op:('+' | '-') r:t | t ;\nt = /\\d/ ;\n", 'dict', 1),
+    ('aliased2', "start = e $ ;\nx = e ;\ne = x '+' t | x '-' t | t ;\nt = /\\d/ ;\n", 'list', 1),
+    ('two-level', "start = e $ ;\ne = e '+' m | e '-' m | m ;\nm = m '*' t | t ;\nt = /\\d/ ;\n", 'list', 2),
+]
+
+
+def same_tree(a, b):
+    """structural equality without recursion (the trees are thousands of levels deep); lists and tuples alike"""
+    stack = [(a, b)]
+    while stack:
+        x, y = stack.pop()
+        if isinstance(x, dict) or isinstance(y, dict):
+            if not (isinstance(x, dict) and isinstance(y, dict)):
+                return False
+            kx = {k for k in x if 'parseinfo' not in k}
+            if kx != {k for k in y if 'parseinfo' not in k}:
+                return False
+            stack.extend((x[k], y[k]) for k in kx)
+        elif isinstance(x, (list, tuple)) or isinstance(y, (list, tuple)):
+            if not (isinstance(x, (list, tuple)) and isinstance(y, (list, tuple))) or len(x) != len(y):
+                return False
+            stack.extend(zip(x, y))
+        elif x != y or type(x) is not type(y):
+            return False
+    return True
+
+
+def tree_depth(v):
+    d = 0
+    while isinstance(v, (list, tuple, dict)) and len(v):
+        v = v['l'] if isinstance(v, dict) else v[0]
+        d += 1
+    return d
+
+
+def run_long(desc, acc):
+    """left recursion is grown iteratively: a chain of thousands of operators parses to the left-nested tree, whatever
+    Python's recursion limit (documented: 'left recursion ... associate to the left'; termination without depth limit)"""
+    import tatsu
+    from tatsu.exceptions import FailedParse
+    n = LONG_N[desc['tier']]
+    rng = random.Random(h64('C03', 'long', desc['seed'], desc['shard']))
+    kind, gtext, shape, levels = LONG_SHAPES[desc['shard'] % len(LONG_SHAPES)]
+    model = tatsu.compile(gtext, name='T')
+    gen = gen_parser(model)[0]
+    digits = [rng.choice('123') for _ in range(n + 1)]
+    ops = [rng.choice('+-') if levels == 1 or rng.random() < 0.5 else '*' for _ in range(n)]
+    text = digits[0]
+    for o, d in zip(ops, digits[1:]):
+        sp = ' ' if rng.random() < 0.1 else ''
+        text += sp + o + sp + d
+    # expected: iterative left fold (two precedence levels: '*' binds tighter)
+    def node(l, o, r):
+        return {'l': l, 'op': o, 'r': r} if shape == 'dict' else [l, o, r]
+    terms = [[digits[0]]]
+    termops = []
+    for o, d in zip(ops, digits[1:]):
+        if o == '*':
+            terms[-1].append(d)
+        else:
+            termops.append(o)
+            terms.append([d])
+    folded = []
+    for t in terms:
+        v = t[0]
+        for d in t[1:]:
+            v = node(v, '*', d)
+        folded.append(v)
+    expected = folded[0]
+    for o, v in zip(termops, folded[1:]):
+        expected = node(expected, o, v)
+    for backend, parse in (('model', lambda: model.parse(text, heart=StepHeart(400 * n + 10000))),
+                           ('generated', lambda: gen().parse(text, heart=StepHeart(400 * n + 10000)))):
+        acc.evaluations += 1
+        w = {'mode': 'long', 'grammar_text': gtext, 'n_ops': n, 'kind': kind, 'backend': backend,
+             'text_head': text[:60], 'seed': desc['seed'], 'shard': desc['shard'], 'tier': desc['tier']}
+        try:
+            got = parse()
+        except FailedParse as e:
+            acc.violation(f'long-chain/fail/{kind}', f'{backend}: a chain of {n} left-associative operators failed to parse: '
+                                                     f'{str(e)[:100]!r} grammar {gtext!r}', w)
+            continue
+        except BaseException as e:  # noqa: BLE001
+            if isinstance(e, (KeyboardInterrupt, SystemExit)):
+                raise
+            acc.violation(f'long-chain/exc:{type(e).__name__}/{kind}',
+                          f'{backend}: a chain of {n} left-associative operators raised {type(e).__name__} '
+                          f'({str(e)[:80]}) at recursion limit {sys.getrecursionlimit()}: growth must be iterative; grammar {gtext!r}', w)
+            continue
+        acc.count('long_chain_parsed')
+        acc.count('long_chain:' + kind)
+        acc.peak('max_long_chain_depth', tree_depth(got))
+        acc.nontriv('long', kind, backend, n)
+        if not same_tree(got, expected):
+            acc.violation(f'long-chain/ast/{kind}', f'{backend}: a chain of {n} operators did not give the left-nested tree '
+                                                    f'(depth got {tree_depth(got)}, expected {tree_depth(expected)}); grammar {gtext!r}', w)
+
+
 def run_shard(desc, acc):
     sys.setrecursionlimit(3000)
+    if desc['shard'] < 2 * len(LONG_SHAPES):
+        run_long(desc, acc)
     for i in range(desc['n']):
         rng = random.Random(h64('C03', desc['seed'], desc['shard'], i))
         spec = Spec(rng)
@@ -480,6 +589,9 @@ def run_shard(desc, acc):
 
 
 def replay(w, acc):
+    if w.get('mode') == 'long':
+        sys.setrecursionlimit(3000)
+        return run_long({'tier': w['tier'], 'seed': w['seed'], 'shard': w['shard']}, acc)
     g = L.from_json(w['grammar'])
     case = D.Case(g, w['start'])
     tag, a, b, r = D.compare(case, w['text'])
